@@ -1,2 +1,7 @@
 """Predicates for KNOWN_FINDINGS.txt entries. Each takes (component, script_lines, impl_lines, problems) and returns
 True iff the failing case is an instance of that specific finding (strict: see DESIGN.md 5.2)."""
+
+
+def kf_c03_torn_batch(component, script, impl, problems):
+    """only: the newest log file CUT (truncated, not corrupted) strictly inside the record group of one batch"""
+    return component == 'walfault' and bool(problems) and all(p.startswith('torn batch: log cut at byte') for p in problems)
